@@ -492,6 +492,10 @@ impl IncrementalEngine {
                 }
 
                 let mut action_results = super::ActionResults::new();
+                #[cfg(feature = "verif-hooks")]
+                crate::verif_hooks::set_matched_handle(
+                    activation.matched_fact_handle.map(|h| h.id()),
+                );
                 (rule.action)(&mut modified_facts, &mut action_results);
 
                 // Update working memory: detect changes and apply them
